@@ -14,6 +14,7 @@ oracle: the property statement evaluated directly on the implementation trace
 """
 import json
 import math
+import os
 import random
 import sys
 
@@ -32,19 +33,39 @@ DEFAULT_MAX = 1 << 31
 # --------------------------------------------------------------------------
 # implementation side
 
+class StepCap(Exception):
+    pass
+
+
+def step_bound(case):
+    """A run that honours the property takes at most one step per damped
+    iteration, tf/(smallest undamped step) full steps, one per requested time
+    and one to land on tf.  Twice that (plus slack) is the cap after which the
+    harness gives up on the implementation and reports non-termination."""
+    us = [case['dt']] + [v for v in case['seq'] if v is not None]
+    umin = min(us)
+    n = case['n_damp'] + int(math.ceil(case['tf'] / umin)) + len(case['out']) + 5
+    return 2 * n + 50
+
+
 class StubIntegrator(object):
-    def __init__(self, seq, log, solver_ref):
+    def __init__(self, seq, log, solver_ref, cap):
         self.seq = seq
         self.k = 0
         self.log = log
         self.ref = solver_ref
         self.last_ret = None       # last non-None adaptive value returned
+        self.cap = cap
+        self.nsteps = 0
 
     def initial_acceleration(self, t, dt):
         pass
 
     def step(self, t, dt):
         s = self.ref[0]
+        self.nsteps += 1
+        if self.nsteps > self.cap:
+            raise StepCap('more than %d steps' % self.cap)
         self.log.append(('s', float(t), float(dt), int(s.count),
                          float(s._damping_factor), self.last_ret))
 
@@ -69,7 +90,7 @@ def damp_formula(count, n_damp):
 def run_impl(case):
     log = []
     ref = [None]
-    integ = StubIntegrator(case['seq'], log, ref)
+    integ = StubIntegrator(case['seq'], log, ref, step_bound(case))
     s = Solver(integrator=integ, tf=case['tf'], dt=case['dt'],
                n_damp=case['n_damp'], adaptive_timestep=bool(case['adaptive']),
                output_at_times=list(case['out']))
@@ -117,7 +138,8 @@ def model_line(case):
     damp = [damp_formula(k, nd) for k in range(nd)] if nd > 0 else []
     seq = ','.join('N' if v is None else H.fbits(v) for v in case['seq']) or '_'
     mx = DEFAULT_MAX if case['max_steps'] is None else case['max_steps']
-    return ('solve dt=%s tf=%s pfreq=%d out=%s ndamp=%d damp=%s max=%d '
+    op = 'solve-pinned' if os.environ.get('C10_MODEL_VARIANT') == 'pinned' else 'solve'
+    return (op + ' dt=%s tf=%s pfreq=%d out=%s ndamp=%d damp=%s max=%d '
             'adaptive=%d seq=%s' % (
                 H.fbits(case['dt']), H.fbits(case['tf']), case['pfreq'],
                 H.flist(case['out']), nd, H.flist(damp), mx,
@@ -140,6 +162,12 @@ def oracle(case, impl):
     nd = case['n_damp']
     out = case['out']
     mx = DEFAULT_MAX if case['max_steps'] is None else case['max_steps']
+    if impl['err'] and impl['err'].startswith('StepCap'):
+        st = [e for e in log if e[0] == 's'][-3:]
+        return [('C10:does-not-terminate',
+                 'solve() reaches tf = %r (a conforming run needs at most %d steps)'
+                 % (tf, (step_bound(case) - 50) // 2),
+                 '%s; last steps (t, dt): %r' % (impl['err'], [(e[1], e[2]) for e in st]))]
     if impl['err']:
         return [('C10:raises', 'solve() returns', impl['err'])]
     steps = [e for e in log if e[0] == 's']
@@ -481,7 +509,7 @@ def main():
             print('property holds on this input now')
         sys.exit(1 if fails else 0)
     rng = random.Random(a.seed * 7919 + 10)
-    n = 1500 if a.tier == 'quick' else 20000
+    n = 4000 if a.tier == "quick" else 100000
     cp = corpus()
     check_cases(cp, R, 0)
     R.count('corpus', len(cp))
